@@ -51,7 +51,10 @@ Definition cut (es : list sentry) : list block := cut_from bs_empty es.
 
 (* ---------- block iterator, logically: a position in the key list of the block ---------- *)
 
-Definition key_nonempty (k : bytes) : bool := match k with [] => false | _ => true end.
+(* validity of a positioned iterator used to demand a non-empty key (len(currentKey) > 0); since
+   f30cabd every decoded key is valid: the empty key is a key *)
+Definition key_nonempty (k : bytes) : bool := true.
+Arguments key_nonempty : simpl never.
 
 Record biter := mkBI { bi_init : bool; bi_cur : option nat }.
 Definition bi_fresh : biter := mkBI false None.
@@ -59,7 +62,7 @@ Definition bi_fresh : biter := mkBI false None.
 Definition bi_key (ks : list bytes) (it : biter) : option bytes :=
   match bi_cur it with Some i => nth_error ks i | None => None end.
 
-(* Iterator.Valid: currentKey != nil && len(currentKey) > 0 *)
+(* Iterator.Valid: currentKey != nil *)
 Definition bi_valid (ks : list bytes) (it : biter) : bool :=
   match bi_key ks it with Some k => key_nonempty k | None => false end.
 
